@@ -329,6 +329,69 @@ def r20_2(rep: Report, cls: ast.ClassDef) -> None:
                 return False, f'total `{tname}` is not clamped to size - pos when the size is known'
             return True, ''
 
+        def bucket_loop_ok(loop: ast.While, w: ast.AST, chunk_e: ast.AST, cur: str, stop: str, facts) -> tuple[bool, str]:
+            """`while cur < stop:` with `cur += STEP` once per iteration and the chunk `X[lo:hi]`, lo = max(P - cur, 0),
+            hi = min(stop - cur, STEP): in file terms every chunk is [max(P, cur), min(stop, cur + STEP)) - pieces of
+            [P, stop) that do not overlap from one bucket to the next - so the assembled length is at most stop - P,
+            which must be one requested count clamped to size - pos."""
+            top = loop.body
+            steps = [st for st in ast.walk(loop) if isinstance(st, (ast.AugAssign, ast.Assign))
+                     and any(isinstance(t_, ast.Name) and t_.id == cur
+                             for t_ in ([st.target] if isinstance(st, ast.AugAssign) else st.targets))]
+            if len(steps) != 1 or not isinstance(steps[0], ast.AugAssign) or not isinstance(steps[0].op, ast.Add) \
+                    or steps[0] not in top:
+                return False, f'`{cur}` is not advanced by one `{cur} += <bucket size>` per iteration'
+            step = norm(steps[0].value)
+            stored = {n.id for n in ast.walk(loop) if isinstance(n, ast.Name) and isinstance(n.ctx, (ast.Store, ast.Del))}
+            if stop in stored or any(isinstance(n, ast.Name) and n.id in stored for n in ast.walk(steps[0].value)):
+                return False, f'`{stop}` or the bucket size changes inside the chunk loop'
+            sl = next((c.slice for c in ast.walk(chunk_e) if isinstance(c, ast.Subscript) and isinstance(c.slice, ast.Slice)), None)
+            if sl is None or sl.lower is None or sl.upper is None or sl.step is not None:
+                return False, f'`{short(w)}` does not write a closed slice'
+
+            def local_def(e: ast.AST) -> ast.AST:
+                if isinstance(e, ast.Name):
+                    ds = [a_.value for a_ in top if isinstance(a_, ast.Assign) and len(a_.targets) == 1
+                          and isinstance(a_.targets[0], ast.Name) and a_.targets[0].id == e.id]
+                    if len(ds) == 1:
+                        return ds[0]
+                return e
+            lo, hi = local_def(sl.lower), local_def(sl.upper)
+
+            def two_args(e: ast.AST, fname: str):
+                if isinstance(e, ast.Call) and call_name(e) == fname and len(e.args) == 2 and not e.keywords:
+                    return e.args
+                return None
+            la, ha = two_args(lo, 'max'), two_args(hi, 'min')
+            if la is None or ha is None:
+                return False, f'slice bounds of `{short(w)}` are not max(<start> - {cur}, 0) / min({stop} - {cur}, <bucket size>)'
+            zero = [a_ for a_ in la if isinstance(a_, ast.Constant) and a_.value == 0]
+            rel = [a_ for a_ in la if isinstance(a_, ast.BinOp) and isinstance(a_.op, ast.Sub) and norm(a_.right) == cur]
+            if len(zero) != 1 or len(rel) != 1:
+                return False, f'lower bound `{norm(lo)}` is not max(<start> - {cur}, 0)'
+            start_txt = norm(rel[0].left)
+            ok_hi = {norm(a_) for a_ in ha} == {f'{stop} - {cur}', step}
+            if not ok_hi:
+                return False, f'upper bound `{norm(hi)}` is not min({stop} - {cur}, {step})'
+            inits_s = [n for n in ast.walk(fn) if isinstance(n, ast.Assign) and isinstance(n.targets[0], ast.Name)
+                       and n.targets[0].id == stop and not any(x is n for x in ast.walk(loop))]
+            if len(inits_s) != 1:
+                return False, f'`{stop}` is not initialised once before the chunk loop'
+            s0 = lin(inits_s[0].value, opaque=True)
+            p0 = lin(ast.parse(start_txt, mode='eval').body, opaque=True)
+            if s0 is None or p0 is None:
+                return False, f'cannot normalise `{stop}` / `{start_txt}`'
+            total = dict(s0)
+            for k_, v_ in p0.items():
+                total[k_] = total.get(k_, 0) - v_
+            total = {k_: v_ for k_, v_ in total.items() if v_}
+            if len(total) != 1 or list(total.values()) != [1]:
+                return False, f'`{stop} - {start_txt}` at loop entry is `{_fmt_lin(total)}`, not one requested count'
+            tname = next(iter(total))
+            if ('win', tname) not in facts and 'sizenone' not in facts:
+                return False, f'total `{tname}` is not clamped to size - pos when the size is known'
+            return True, ''
+
         # which local names hold "assembled" data, and how they were assembled
         def assembled_ok(ret: ast.AST, facts) -> tuple[bool, str]:
             """the returned bytes are assembled from chunks - `buf.write(c)` .. `buf.getvalue()`,
@@ -399,7 +462,9 @@ def r20_2(rep: Report, cls: ast.ClassDef) -> None:
                         and isinstance(t.left, ast.Name) and isinstance(t.comparators[0], ast.Name):
                     ok_c, why_c = cursor_loop_ok(loop, w, chunk_e, t.left.id, t.comparators[0].id, facts)
                     if not ok_c:
-                        return False, why_c
+                        ok_b, _why_b = bucket_loop_ok(loop, w, chunk_e, t.left.id, t.comparators[0].id, facts)
+                        if not ok_b:
+                            return False, why_c
                     continue
                 if isinstance(t, ast.Compare) and len(t.ops) == 1 and isinstance(t.ops[0], ast.Gt) \
                         and isinstance(t.comparators[0], ast.Constant) and t.comparators[0].value == 0:
